@@ -12,7 +12,9 @@ import (
 	"crypto/sha256"
 	"encoding/base64"
 	"encoding/json"
+	"encoding/pem"
 	"fmt"
+	"github.com/WICG/webpackage/go/zz_verif/gen"
 	"net/url"
 	"os"
 	"os/exec"
@@ -214,6 +216,11 @@ func auditDirBundle(wbn []byte, base *url.URL, files []treeFile) (string, *rbund
 // ---------------------------------------------------------------- reference verification of a signatures-section bundle
 
 func verifySignedBundle(wbn []byte, originals map[string][]byte, coveredHost string, leafDER []byte, pub *ecdsa.PublicKey, version string, wantDate int64, wantLifetime uint64) string {
+	return verifySignedBundleAt(wbn, -1, originals, coveredHost, leafDER, pub, version, wantDate, wantLifetime)
+}
+
+// verifySignedBundleAt audits vouched subset number which (-1: the last one, i.e. the signature added most recently).
+func verifySignedBundleAt(wbn []byte, which int, originals map[string][]byte, coveredHost string, leafDER []byte, pub *ecdsa.PublicKey, version string, wantDate int64, wantLifetime uint64) string {
 	p, e := rbundle.Extract(wbn)
 	if e != nil {
 		return "independent parser rejects the signed bundle: " + e.Error()
@@ -221,7 +228,13 @@ func verifySignedBundle(wbn []byte, originals map[string][]byte, coveredHost str
 	if p.Signatures == nil || len(p.Signatures.Vouched) == 0 {
 		return "no signatures section / vouched subset"
 	}
-	vs := p.Signatures.Vouched[len(p.Signatures.Vouched)-1]
+	if which < 0 {
+		which = len(p.Signatures.Vouched) - 1
+	}
+	if which >= len(p.Signatures.Vouched) {
+		return fmt.Sprintf("only %d vouched subsets, signature number %d is missing", len(p.Signatures.Vouched), which)
+	}
+	vs := p.Signatures.Vouched[which]
 	if vs.Authority >= uint64(len(p.Signatures.Authorities)) || !bytes.Equal(p.Signatures.Authorities[vs.Authority].Cert, leafDER) {
 		return "the vouched subset's authority index does not select the signer's leaf certificate"
 	}
@@ -750,6 +763,130 @@ func run20(r *mon.Run) {
 		}
 		os.Remove(hp)
 		os.Remove(wbn)
+	}
+
+	// ---- (E) one bundle with two origins, signed twice: sign-bundle signatures-section is run on its own output with
+	// the second origin's certificate; both chains end in the same intermediate (two origins served by one CA)
+	nTwo := 2
+	if r.Thorough {
+		nTwo = 24
+	}
+	for t := 0; t < nTwo; t++ {
+		if !r.Mine(t) {
+			continue
+		}
+		g := r.Rand("two-origins", t)
+		sharedKey := gen.ECKey(g, ecP256())
+		shared := gen.Cert(sharedKey, gen.CertOpts{CN: "shared intermediate", Serial: 999})
+		var mats []*ecMaterial
+		var cbors []string
+		okMat := true
+		for k, host := range []string{"a.example", "b.example"} {
+			curveName, curve := "prime256v1", ecP256()
+			if (t+k)%2 == 1 {
+				curveName, curve = "secp384r1", ecP384()
+			}
+			m, _ := makeEC(g, keyDir, fmt.Sprintf("two-%d-%d", t, k), curveName, curve, host, 1, false)
+			chainLen := 2
+			if t%3 == 2 && k == 1 {
+				chainLen = 1 // (a leaf-only chain after a two-certificate one)
+			}
+			var pemBytes []byte
+			m.certs = m.certs[:1]
+			if chainLen == 2 {
+				m.certs = append(m.certs, shared)
+			}
+			for _, c := range m.certs {
+				pemBytes = append(pemBytes, pem.EncodeToMemory(&pem.Block{Type: "CERTIFICATE", Bytes: c.Raw})...)
+			}
+			os.WriteFile(m.certPEM, pemBytes, 0o644)
+			ocspPath := filepath.Join(keyDir, fmt.Sprintf("two-ocsp-%d-%d.der", t, k))
+			os.WriteFile(ocspPath, []byte("ocsp"), 0o644)
+			res, out := toolStdout("gen-certurl", nil, "-pem", m.certPEM, "-ocsp", ocspPath)
+			if res.rc != 0 {
+				violation(fmt.Sprintf("two:%d:certurl", t), "gen-certurl failed: "+tail(res.out), nil)
+				okMat = false
+				break
+			}
+			cp := filepath.Join(keyDir, fmt.Sprintf("two-cert-%d-%d.cbor", t, k))
+			os.WriteFile(cp, out, 0o644)
+			mats = append(mats, m)
+			cbors = append(cbors, cp)
+		}
+		if !okMat {
+			r.Eval("two-origins:CERTURL-FAILED")
+			continue
+		}
+		// the unsigned bundle comes from gen-bundle -har
+		type hdr struct {
+			Name  string `json:"name"`
+			Value string `json:"value"`
+		}
+		var entries []map[string]any
+		orig := map[string][]byte{}
+		nPer := 1 + g.Intn(3)
+		for k := 0; k < 2*nPer; k++ {
+			host := []string{"a.example", "b.example"}[k%2]
+			u := fmt.Sprintf("https://%s/r%d", host, k)
+			body := []byte(fmt.Sprintf("resource %d of %s %s", k, host, strings.Repeat("x", g.Intn(200))))
+			orig[u] = body
+			entries = append(entries, map[string]any{
+				"request":  map[string]any{"method": "GET", "url": u, "headers": []hdr{}},
+				"response": map[string]any{"status": 200, "headers": []hdr{{"Content-Type", "text/plain"}}, "content": map[string]any{"text": string(body)}},
+			})
+		}
+		hb, _ := json.Marshal(map[string]any{"log": map[string]any{"version": "1.2", "creator": map[string]string{"name": "verif", "version": "1"}, "entries": entries}})
+		hp := filepath.Join(scratch, fmt.Sprintf("two-%d.har", t))
+		os.WriteFile(hp, hb, 0o644)
+		ver := []string{"b2", "b1"}[t%2]
+		wbn := filepath.Join(scratch, fmt.Sprintf("two-%d.wbn", t))
+		gargs := []string{"-har", hp, "-o", wbn, "-version", ver}
+		if ver == "b1" {
+			gargs = append(gargs, "-primaryURL", "https://a.example/r0")
+		}
+		key := fmt.Sprintf("two:%d", t)
+		det := map[string]any{"case": t, "version": ver, "chain_lengths": []int{len(mats[0].certs), len(mats[1].certs)}}
+		outcome := "two-origins:ok"
+		if res := tool("gen-bundle", nil, gargs...); res.rc != 0 {
+			outcome = "two-origins:GEN-BUNDLE-FAILED"
+			violation(key+":gen", "gen-bundle -har failed on a two-origin HAR: "+tail(res.out), det)
+		} else {
+			in := wbn
+			for k, m := range mats {
+				out := fmt.Sprintf("%s.signed%d", wbn, k)
+				date := int64(1600000000 + 1000*k)
+				res := tool("sign-bundle", passEnv, "signatures-section", "-i", in, "-o", out, "-certificate", cbors[k], "-privateKey", m.keys[(t+k)%2].path,
+					"-validityUrl", "https://"+m.host+"/validity", "-date", time.Unix(date, 0).UTC().Format(time.RFC3339), "-expire", "24h", "-miRecordSize", "4096")
+				if res.rc != 0 {
+					outcome = "two-origins:SIGN-FAILED"
+					violation(fmt.Sprintf("%s:sign%d", key, k), fmt.Sprintf("signing run %d (origin %s) of a two-origin bundle failed: %s", k, m.host, tail(res.out)), det)
+					break
+				}
+				sb, _ := os.ReadFile(out)
+				// every signature added so far must still verify in this output
+				for j := 0; j <= k; j++ {
+					if bad := verifySignedBundleAt(sb, j, orig, mats[j].host, mats[j].certs[0].Raw, &mats[j].key.PublicKey, ver, int64(1600000000+1000*j), 86400); bad != "" {
+						outcome = "two-origins:DOES-NOT-VERIFY"
+						violation(fmt.Sprintf("%s:verify%d-after%d", key, j, k), fmt.Sprintf("after signing run %d, the signature of origin %s (run %d) does not verify: %s", k, mats[j].host, j, bad), det)
+					}
+				}
+				if d := tool("dump-bundle", nil, "-i", out); d.rc != 0 {
+					outcome = "two-origins:DUMP-REJECTS"
+					violation(fmt.Sprintf("%s:dump%d", key, k), "dump-bundle rejects the signed bundle: "+tail(d.out), det)
+				}
+				if in != wbn {
+					os.Remove(in)
+				}
+				in = out
+			}
+			if in != wbn {
+				os.Remove(in)
+			}
+		}
+		r.Eval(outcome)
+		r.Distinct(fmt.Sprintf("two-origins|%s|chains%d+%d|%s", ver, len(mats[0].certs), len(mats[1].certs), outcome))
+		os.Remove(wbn)
+		os.Remove(hp)
 	}
 
 	// ---- (D) gen-signedexchange -> dump-signedexchange -verify
